@@ -19,7 +19,7 @@ RULE = ("a case = (device capability profile, history of setter calls / apply / 
         "each value being the vendor encoding of the public attribute at apply time; a refresh directly after the apply reads every "
         "changed setting back equal; at most one of breeze_away / breeze_mild / breezeless is true at every step; start_self_clean sends "
         "self-clean=1 (+ buzzer) at once. Exhaustive: all histories of depth <= 2 (quick) / <= 3 (thorough) over a per-profile alphabet "
-        "(two values per supported setting + apply + refresh + self-clean) for 12 profiles, each closed by apply, refresh; plus random "
+        "(two values per supported setting + apply + refresh + self-clean + the ordinary swing-mode setter with two values; the random histories also change mode, fan, setpoint, power, eco, turbo and toggle the display in between: a property setting the user assigned must still read the same afterwards) for 12 profiles, each closed by apply, refresh; plus random "
         "histories up to length 20 over all enum values. distinct = (profile, history); non-trivial = histories with >= 1 setter")
 ASSUMPTIONS = ["only settings the profile advertises are driven", "a setting changed before an intervening refresh may or may not be "
                "transmitted (statement silent); if it is, its value must match",
@@ -120,6 +120,12 @@ def _alphabet(profile, full=False):
     letters += [["apply"], ["refresh"]]
     if profile[4]:
         letters.append(["selfclean"])
+    # settings of the ordinary control command, changed in between (they are not property-protocol settings)
+    letters += [["other", "swing_mode", 0xF], ["other", "swing_mode", 0x0]]
+    if full:
+        letters += [["other", "swing_mode", 0xC], ["other", "swing_mode", 0x3], ["other", "operational_mode", 2], ["other", "operational_mode", 4],
+                    ["other", "fan_speed", 60], ["other", "target_temperature", 24.5], ["other", "power_state", True], ["other", "eco", True],
+                    ["other", "turbo", False], ["other", "display", None]]
     return letters
 
 
@@ -194,8 +200,26 @@ def run_case(ctx, case):
         fresh = set()      # settings changed since the last apply or refresh
         maybe = set()      # settings changed before an intervening refresh (since the last apply)
         last_apply = None  # (step, {setting: value at apply time}) for the read-back check
+        userset = {}       # setting -> value the user assigned since the last refresh
         for step, op in enumerate(ops):
-            if op[0] == "set":
+            if op[0] == "other":
+                _, name, val = op
+                if name == "display":
+                    await ac.toggle_display()      # an exchange that ends in a refresh: the attributes follow what the device reports
+                    userset.clear()
+                    last_apply = None
+                    maybe |= fresh
+                    fresh = set()
+                elif name == "swing_mode":
+                    ac.swing_mode = AC.SwingMode(val)
+                elif name == "operational_mode":
+                    ac.operational_mode = AC.OperationalMode(val)
+                else:
+                    setattr(ac, name, val)
+                for n2, v2 in userset.items():
+                    if _attr(ac, n2) != v2:
+                        viol.append((f"setting-changed-by-other-setter/{n2}", f"{n2} was set to {v2!r} but reads {_attr(ac, n2)!r} after {name} was set", step))
+            elif op[0] == "set":
                 _, name, val = op
                 if name == "rate_select":
                     setattr(ac, name, AC.RateSelect(val))
@@ -205,6 +229,10 @@ def run_case(ctx, case):
                     setattr(ac, name, val)
                 if name != "beep":
                     fresh.add(name)
+                    if name in ("breeze_away", "breeze_mild", "breezeless"):
+                        for b in ("breeze_away", "breeze_mild", "breezeless"):
+                            userset.pop(b, None)       # breeze modes exclude each other: only the last one set is tracked
+                    userset[name] = _attr(ac, name)
                 last_apply = None if last_apply and name in last_apply[1] else last_apply
             elif op[0] == "apply":
                 n0 = len(model.prop_sets)
@@ -248,6 +276,7 @@ def run_case(ctx, case):
                 fresh, maybe = set(), set()
             elif op[0] == "refresh":
                 await ac.refresh()
+                userset.clear()
                 if last_apply is not None and last_apply[0] == step - 1:
                     for name, val in last_apply[1].items():
                         stats["readback"] += 1
@@ -261,12 +290,16 @@ def run_case(ctx, case):
                 await ac.get_capabilities()      # re-querying the (unchanged) profile must not disturb pending settings
             elif op[0] == "selfclean":
                 n0 = len(model.prop_sets)
+                beep = ac.beep
                 await ac.start_self_clean()
                 frames = model.prop_sets[n0:]
                 if len(frames) != 1 or dict(frames[0]).get(acprops.P_SELF_CLEAN) != b"\x01" or acprops.P_BUZZER not in dict(frames[0]):
                     viol.append(("self-clean-write", f"start_self_clean sent {[[(hex(p), v.hex()) for p, v in f] for f in frames]}", step))
+                elif dict(frames[0])[acprops.P_BUZZER] != bytes([1 if beep else 0]):
+                    viol.append((f"value-encoding/0x{acprops.P_BUZZER:04x}", f"self-clean write carries buzzer {dict(frames[0])[acprops.P_BUZZER].hex()} but beep={beep}", step))
                 else:
                     await ac.refresh()
+                    userset.clear()
                     if not ac.self_clean_active:
                         viol.append(("readback/self_clean", "self clean started but not read back active", step))
             if sum([bool(ac.breeze_away), bool(ac.breeze_mild), bool(ac.breezeless)]) > 1:
